@@ -98,6 +98,8 @@ class Sim:
         self.hot_counter = 0
         self.hot_max_stall = 400_000
         self.seam_stall_k = 0               # seam mode: 1/k of the seam visits stall the task
+        self.opcode_files = ()              # file-name suffixes traced per *bytecode* (frame.f_trace_opcodes): a
+                                            # switch may then fall between two instructions of one source line
         self.passes = {}
         self.aborted = None
 
@@ -250,7 +252,10 @@ class Sim:
 
     # -- line-level pre-emption ------------------------------------------------
     def _trace(self, frame, event, arg):
-        if frame.f_code.co_filename.startswith(self.line_prefixes):
+        fn = frame.f_code.co_filename
+        if fn.startswith(self.line_prefixes):
+            if self.opcode_files and fn.endswith(self.opcode_files):
+                frame.f_trace_opcodes = True
             return self._line
         return None
 
@@ -260,7 +265,7 @@ class Sim:
                 code = frame.f_code
                 self.passes[code] = self.passes.get(code, 0) + 1
             return self._line
-        if event == "line":
+        if event == "line" or event == "opcode":
             t = self.cur
             if t is None or t.ident != _thread.get_ident():
                 return self._line
@@ -283,6 +288,9 @@ class Sim:
                     return self._line
                 code = frame.f_code
                 place = f"{code.co_filename.rsplit('/', 1)[-1]}:{code.co_name}:{frame.f_lineno}"
+                if event == "opcode":
+                    place += f"+{frame.f_lasti}"
+                    self.stats["probe.switch_between_bytecodes_of_a_line"] += 1
                 self.sched_h.update(f"{t.name}@{place};".encode())
                 if self.line_probe is not None:
                     self.line_probe(code.co_filename, code.co_name, frame.f_lineno)
